@@ -622,20 +622,32 @@ class Qcow2L2Cache(Suite):
                     reqs.append([g * cs + 4096 * rng.randrange(0, cs // 4096), 4096])
             case["reqs2"] = reqs
             out.append(case)
+            if cb in (16, 21):
+                out.append(dict(case, via_snapshot=True))
         return out
 
     def impl(self, case):
         from dissect.hypervisor.disk import qcow2 as Q
         fh, data, backing = c01.build_files(case)
+        if case.get("via_snapshot"):
+            # one internal snapshot whose L1 table is the active one: the same mapping read through QCow2Snapshot.open()
+            cs = 1 << case["cluster_bits"]
+            ent = struct.pack(">QIHHIIQII", case["l1_offset"], case["l1_size"], 1, 8, 0, 0, 0, 0, 16) + \
+                struct.pack(">QQ", 0, case["size"]) + b"1" + b"snap-one"
+            hdr = bytearray(fh.content(0, 512))
+            struct.pack_into(">I", hdr, 60, 1)
+            struct.pack_into(">Q", hdr, 64, 2 * cs)
+            fh._chunks = list(fh._chunks) + [(0, bytes(hdr)), (2 * cs, ent)]
         try:
             q = Q.QCow2(fh)
+            st = q.snapshots[0].open() if case.get("via_snapshot") else q
         except Exception as e:  # noqa: BLE001
-            return {"open": {"exc": type(e).__name__}}
+            return {"open": {"exc": type(e).__name__, "msg": str(e)[:100]}}
         fh.reset_counters()
         total, wrong = 0, 0
         for a, n in case["reqs2"]:
-            q.seek(a)
-            r = q.read(n)
+            st.seek(a)
+            r = st.read(n)
             total += len(r)
             if r != c01.intent_bytes(case, a, n, (fh, data, backing)):
                 wrong += 1
@@ -666,7 +678,7 @@ class Qcow2L2Cache(Suite):
         return core.sha(core.jdump(case).encode())
 
     def dist(self, case):
-        return {"cluster_bits": case["cluster_bits"], "tables": len(case["l2tabs"])}
+        return {"cluster_bits": case["cluster_bits"], "tables": len(case["l2tabs"]), "via_snapshot": bool(case.get("via_snapshot"))}
 
 
 SUITES = {"qcow2_l2cache": Qcow2L2Cache(), "vmdk_io": VmdkIo(), "qcow2_io": Qcow2Io(), "vhd_huge": VhdHuge(), "vdi_huge": VdiHuge(), "vhdx_huge": VhdxHuge(), "hds_huge": HdsHuge()}
